@@ -11,7 +11,7 @@
      AUTO with limit <> 0: count n + p n <= limit for every node that received >= 1. *)
 From Coq Require Import String ZArith List Permutation Sorted.
 From Verif Require Import Base.GoInt Base.GoSort Base.GoSortSpec Strategy.Model Strategy.ProofsBase
-  Strategy.ProofsSort Strategy.Proofs Strategy.ProofsOk Strategy.ProofsOld Strategy.Statements Strategy.Glue Strategy.ProofsGlue Strategy.ProofsProj Strategy.ModelW Strategy.ProofsW Strategy.ProofsW2 Calcium.DeployPath Calcium.DeployPathProofs.
+  Strategy.ProofsSort Strategy.Proofs Strategy.ProofsOk Strategy.ProofsOld Strategy.Statements Strategy.Glue Strategy.ProofsGlue Strategy.ProofsProj Strategy.ModelW Strategy.ProofsW Strategy.ProofsW2 Calcium.DeployPath Calcium.DeployPathProofs Calcium.DeployPathCaps.
 Local Open Scope Z_scope.
 
 (* full statement, all five strategies, all tables / counts / limits / totals *)
@@ -185,3 +185,16 @@ Theorem C01_path :
 Proof. exact (conj deploy_path_alloc_accepted (conj path_within_every_plugin (conj path_only_offered deploy_path_not_offered))). Qed.
 Print Assumptions C01_path.
 
+(* the hypothesis caps_int64 inside [path_hyps] follows from the node records being Go
+   ints with well-formed maps (builder B's get_cpu_plans_content): [nodes_ok] *)
+Theorem C01_path_hyps_discharged :
+  forall sortf, (forall l, exists l', sortf l = Types.Ok l' /\ Permutation l' l) ->
+  forall base maxshare raw req orders nodes caps morder status need limit,
+  Types.wreq_validate raw = inr req -> NoDup (map fst nodes) -> 0 < base -> nodes_ok orders nodes ->
+  plugin_caps sortf base maxshare req orders nodes = Types.Ok caps ->
+  (forall k, 0 <= mget status k) ->
+  Permutation (entries_of (fst (Capacity.manager_capacity caps))) morder ->
+  0 < need -> 0 <= limit ->
+  path_hyps sortf base maxshare raw req orders nodes caps morder status need limit.
+Proof. exact path_hyps_of_nodes. Qed.
+Print Assumptions C01_path_hyps_discharged.
